@@ -224,6 +224,75 @@ def run_world(rng, res, idx):
     res.sample(dict(idx=idx, kind='world', W=W, k=cfg['k'], cfg={k: cfg[k] for k in ('method', 'prediv', 'kl', 'lr')}, steps=nsteps))
 
 
+def run_deep(rng, res, idx):
+    """Deep models in low precision: the sum over MANY layers of <V, D>, each small next to the running total. Reference:
+    an identical twin (same model, same preconditioner, kl_clip=None) gives the unclipped V in the very arithmetic of the run,
+    so nu is fitted from R = nu V and the formula is evaluated in float64 on the actual V and D."""
+    import copy
+    import math
+    import warnings
+    import torch
+    from kfac.preconditioner import KFACPreconditioner
+
+    class Block(torch.nn.Module):
+        def __init__(self, w):
+            super().__init__()
+            self.fc = torch.nn.Linear(w, w)
+
+        def forward(self, x):
+            return x + 0.1 * torch.tanh(self.fc(x))
+
+    L = rng.randint(80, 200)
+    w = rng.randint(3, 6)
+    dt = rng.choice([torch.bfloat16, torch.bfloat16, torch.bfloat16, torch.float32])
+    method = rng.choice(['eigen', 'inverse'])
+    lr = rng.choice([0.1, 1.0, 0.01])
+    target = rng.choice([0.05, 0.3, 0.7])   # the clip scale the case aims at
+    case = dict(idx=idx, kind='deep', layers=L + 1, width=w, dtype=str(dt), method=method, lr=lr, target_nu=target)
+    g = torch.Generator().manual_seed(rng.randrange(2 ** 31))
+    model = torch.nn.Sequential(*[Block(w) for _ in range(L)], torch.nn.Linear(w, 1))
+    with torch.no_grad():
+        for q in model.parameters():
+            q.copy_(torch.randn(q.shape, generator=g) * 0.5)
+    model = model.to(dt)
+    twin = copy.deepcopy(model)
+    x = torch.randn(rng.randint(4, 16), w, generator=g).to(dt)
+
+    def run(m, kl):
+        with warnings.catch_warnings():
+            warnings.simplefilter('ignore')
+            p = KFACPreconditioner(m, kl_clip=kl, lr=lr, damping=0.01, compute_method=method)
+        m.zero_grad()
+        m(x).float().pow(2).mean().backward()
+        D = [q.grad.detach().double().clone() for q in m.parameters()]
+        p.step()
+        return D, [q.grad.detach().double().clone() for q in m.parameters()]
+
+    D, V = run(twin, None)
+    if not all(torch.isfinite(v).all() for v in V):
+        return res.skip('non-finite unclipped result in low precision')
+    vd = sum(float((v * d).sum()) for v, d in zip(V, D))
+    if not (abs(vd) > 1e-12):
+        return res.skip('degenerate inner product')
+    kl = target ** 2 * lr ** 2 * abs(vd)
+    D2, R = run(model, kl)
+    res.count('deep_checks')
+    if any(not torch.equal(a, b) for a, b in zip(D, D2)):
+        return res.skip('twin gradients differ (non-deterministic kernel)')
+    vv = sum(float((v * v).sum()) for v in V)
+    nu_obs = sum(float((r * v).sum()) for r, v in zip(R, V)) / vv
+    nu_exp = min(1.0, math.sqrt(kl / (lr ** 2 * abs(vd))))
+    tol = 0.03 if dt == torch.bfloat16 else 1e-4
+    res.maxi('max_deep_nu_dev', abs(nu_obs - nu_exp) / nu_exp)
+    if not abs(nu_obs - nu_exp) <= tol * nu_exp:
+        return res.violation(f'deep model ({L + 1} layers, {dt}): clip scale fitted from the gradients is {nu_obs:.5g}, the formula on the actual V and D gives {nu_exp:.5g} '
+                             f'(kl={kl:.4g}, lr={lr}, sum<V,D>={vd:.5g})', case)
+    if not nu_obs ** 2 * lr ** 2 * abs(vd) <= kl * (1 + 3 * tol):
+        return res.violation(f'deep model ({L + 1} layers, {dt}): nu^2 lr^2 |sum<V,D>| = {nu_obs ** 2 * lr ** 2 * abs(vd):.5g} exceeds kl_clip = {kl:.5g}', case)
+    if dt == torch.bfloat16:
+        res.nontrivial.add(stable_hash('deep', L, w, method, lr, target))
+
+
 def plan(tier, seed):
     n = tier_value(tier, 1500, 80000)
     shards = tier_value(tier, 8, 14)
@@ -239,6 +308,8 @@ def run_shard(spec, res):
             break
         res.evaluations += 1
         from kverif.kharness import call_case
+        if i % 187 == 11:
+            call_case(res, run_deep, case_rng(spec['seed'], ID, i, 'deep'), res, i, case=dict(idx=i, kind='deep'))
         if i % 5 == 4:
             call_case(res, run_world, case_rng(spec['seed'], ID, i, 'w'), res, i, case=dict(idx=i, kind='world'))
         else:
@@ -248,7 +319,9 @@ def run_shard(spec, res):
 def replay(case, res):
     import os
     seed = int(os.environ.get('VERIF_SEED', '0'))
-    if case.get('kind') == 'world':
+    if case.get('kind') == 'deep':
+        run_deep(case_rng(seed, ID, case['idx'], 'deep'), res, case['idx'])
+    elif case.get('kind') == 'world':
         run_world(case_rng(seed, ID, case['idx'], 'w'), res, case['idx'])
     else:
         run_single(case_rng(seed, ID, case['idx']), res, case['idx'])
